@@ -457,14 +457,20 @@ class XMLResource(XMLResourceLoader):
             if self.fp.closed:
                 msg = f"can't open {self!r}: its file-like object has been closed"
                 raise XMLResourceOSError(msg)
-            elif getattr(getattr(self, '_lazy_lock', None), 'locked', bool)():
-                # Don't rewind the file-like object that a running iteration is reading
+
+            # Don't rewind the file-like object that a running lazy iteration is
+            # reading: the rewind is done holding the lock of the lazy iterations.
+            lazy_lock = getattr(self, '_lazy_lock', None)
+            if lazy_lock is not None and not lazy_lock.acquire(blocking=False):
                 raise XMLResourceError(f"lazy resource {self!r} is already under iteration")
-            elif self.fp.seekable() and self.fp.seek(0) != 0:
-                msg = f"can't open {self!r}: its file-like object can't be rewound"
-                raise XMLResourceOSError(msg)
-            else:
-                fp = self.fp
+            try:
+                if self.fp.seekable() and self.fp.seek(0) != 0:
+                    msg = f"can't open {self!r}: its file-like object can't be rewound"
+                    raise XMLResourceOSError(msg)
+            finally:
+                if lazy_lock is not None:
+                    lazy_lock.release()
+            fp = self.fp
 
         elif self.url is not None:
             fp = open_url(self.url)
